@@ -260,6 +260,20 @@ def check_case(ctx, pm, c, legacy_version=None):
         ctx.count("legacy-" + legacy_version)
         try:
             ci2 = pm["ComposeInfo"]()
+            reuse = (int(c["date"]) + c["respin"]) % 4
+            if reuse in (1, 2):
+                # the reader object is REUSED: it read a current-version document before (and the caller looked at what
+                # version that was), or it refused one - the legacy document is decoded all the same
+                cur = {"header": {"version": "1.2", "type": "productmd.composeinfo"},
+                       "payload": {"compose": {"id": "Other-9-20010203.t.7", "type": "test", "date": "20010203" if reuse == 1 else "2001-02-03", "respin": 7},
+                                   "release": {"name": "Other", "short": "Other", "version": "9", "type": "ga", "internal": False},
+                                   "variants": {}}}
+                try:
+                    ci2.loads(json.dumps(cur))
+                    ci2.header.version_tuple
+                except Exception:
+                    pass
+                ctx.count("legacy-load-into-reused-reader-" + ("after-good-load" if reuse == 1 else "after-refused-load"))
             ci2.loads(json.dumps(doc))
             got = [ci2.compose.date, ci2.compose.type, ci2.compose.respin]
         except Exception as e:
